@@ -20,14 +20,19 @@ Keys (complete fixed set; a failure maps to exactly one, by mechanism):
     ... except, when a line of the input starts inside a string literal:
   C17/indent-edit-inside-string-token      (phase indent)   C17/blank-lines-inside-string-token  (phase blanks)
   C17/span-edit-with-string-token          (phase spans)
+    ... and, in phase wrap, when the rebuilt signature contains the token `Tuple` that the input does not:
+  C17/wrap-empty-tuple-hint                wrap_long_signatures renders the hint `()` as `Tuple` (TypeHint::as_src)
   C17/ast-differs-with-same-tokens         every phase keeps tokens and comments, the parser's tree still differs
   C17/line-edit-outside-gaps               tree unchanged, but a real line edit rewrites token bytes (editsInGaps false)
   C17/span-edit-outside-gaps               tree unchanged, but real span edits overlap a token or each other
+  C17/output-not-explained-by-trace        the tree/comments differ AND format()'s output differs from the traced pipeline's
+  C17/cli-drops-source-text                `garden format FILE` (CLI) loses tokens/comments that format() keeps
+  C17/cli-format-failed                    `garden format FILE` exits non-zero on a parseable file
 """
 import re
 
 from . import format_common as F
-from .common import hexs, unhex
+from .common import hexs, unhex, pmap
 
 LEAN_MODULES = ["GardenVerif.Props.C17"]
 LEVEL = "translation_validation"
@@ -54,6 +59,8 @@ def classify(ctx, src, trace_resp, lex_in):
     ml = F.line_starts_in_string(src)
     for p, lx in zip(names, lexes):
         if (tok_texts(lx), F.lex_comments(lx)) != want:
+            if p == "wrap" and "Tuple" in tok_texts(lx) and "Tuple" not in want[0]:
+                return "C17/wrap-empty-tuple-hint", p
             if ml and p == "indent":
                 return "C17/indent-edit-inside-string-token", p
             if ml and p == "blanks":
@@ -113,10 +120,14 @@ def run(ctx):
     # ---- model side
     st_lines = ["same_tokens (a %s) (b %s)" % (r_lex[i][3:], r_lex_out[i][3:]) for i in idx]
     r_same = dict(zip(idx, F.model_batch(ctx, st_lines)))
+    # marks of the `indent` text (input of phase 6) only where a line can start inside a token
+    idx_ml = [i for i in idx_t if "indent" in texts[i] and F.line_starts_in_string(unhex(texts[i]["indent"]))]
+    r_lex_indent = dict(zip(idx_ml, F.garden_batch(ctx, ["lex " + texts[i]["indent"] for i in idx_ml])))
     fc_lines = []
     for i in idx_t:
-        fc_lines.append("fmt_check %s (marks_wrap %s) (marks_spans %s)" % (
-            r_tr[i][3:], F.lex_spans(r_lex_wrap[i]), F.lex_spans(r_lex_spans[i])))
+        fc_lines.append("fmt_check %s (marks_wrap %s) (marks_spans %s) (marks_indent %s)" % (
+            r_tr[i][3:], F.lex_spans(r_lex_wrap[i]), F.lex_spans(r_lex_spans[i]),
+            F.lex_spans(r_lex_indent.get(i, ""))))
     r_fc = dict(zip(idx_t, F.model_batch(ctx, fc_lines)))
 
     n_changed = n_ml = n_wrapped = n_le = n_se = 0
@@ -153,7 +164,14 @@ def run(ctx):
             bad = "comment list of the output differs from the input's"
         same = r_same.get(i, "")
         fc = r_fc.get(i, "")
-        if bad:
+        if bad and texts[i].get("final") != out_hex:
+            # the traced pipeline (verif_format_trace, a cfg-guarded copy of format()) does not produce
+            # format()'s output: its edit lists and phase texts do not explain this violation
+            ctx.fail("C17/output-not-explained-by-trace", bad + "; format() and its traced copy disagree on this input, so "
+                     "the edit lists that `editsInGaps` was evaluated on are not the ones format() applied",
+                     origin=o, input=s, output=out, traced_final=unhex(texts[i].get("final", "")),
+                     command="printf %s <input> > f.gdn; garden format f.gdn")
+        elif bad:
             key, phase = classify(ctx, s, r_tr[i], r_lex[i])
             ctx.fail(key, bad + (" (first phase that changes the tokens: %s)" % phase if phase else ""),
                      origin=o, input=s, output=out, same_tokens=same, fmt_check=fc,
@@ -177,7 +195,7 @@ def run(ctx):
                 ctx.broken.append(dict(kind="correspondence", what="fmt_check driver op failed", input=s, model=fc))
             else:
                 for ph in ("spans", "indent", "blanks", "final"):
-                    if "(%s eq)" % ph not in fc:
+                    if "(%s eq)" % ph not in fc and not (ph == "blanks" and "(blanks eqfix)" in fc):
                         ctx.disagree("format phase model `%s`" % ph, s, fc, "real intermediate text (fmt_trace)")
                 eig = "(edits_in_gaps true)" in fc
                 sig = "(spans_in_gaps true)" in fc
@@ -193,6 +211,54 @@ def run(ctx):
                              origin=o, input=s, trace=tail[:2000])
         if changed and len(s) < 400:
             ctx.sample({"input": s, "output": out, "same_tokens": same, "fmt_check": fc}, limit=4)
+
+    # ---------- CLI oracle: `garden format FILE` (main.rs: remove_testing_footer + format) keeps every
+    # token and comment of the file. Files that end in a genuine reftest footer (a `// args: ` line
+    # followed by comment lines only, up to the end of the file) are skipped: the CLI strips that footer
+    # by design.
+    def has_footer(src):
+        ls = src.split("\n")
+        for k, l in enumerate(ls):
+            if l.startswith("// args: "):
+                return all((not x.strip()) or x.startswith("//") for x in ls[k:])
+        return False
+
+    cand = [i for i in range(len(good)) if outs[i] is not None and not has_footer(good[i][1])]
+    argsy = [i for i in cand if "// args: " in good[i][1]]
+    rest = [i for i in cand if i not in set(argsy)]
+    ctx.rng.shuffle(rest)
+    sample = argsy[:200] + [i for i in cand if good[i][0].startswith("probe")] + rest[:ctx.scale(100, 1000)]
+    sample = sorted(set(sample))
+    d = ctx.scratch("cli")
+
+    def cli(i):
+        import os
+        p = os.path.join(d, "f%d.gdn" % i)
+        with open(p, "w", encoding="utf-8", newline="") as f:
+            f.write(good[i][1])
+        rc, so, se = ctx.garden(["format", p], timeout=60)
+        if rc == -9999:
+            rc, so, se = ctx.garden(["format", p], timeout=300)
+        return i, rc, so
+
+    res = pmap(cli, sample)
+    okc = [(i, so) for i, rc, so in res if rc == 0]
+    lex_cli = F.garden_batch(ctx, ["lex " + hexs(so) for _, so in okc])
+    n_cli = 0
+    for (i, so), lx in zip(okc, lex_cli):
+        n_cli += 1
+        if (tok_texts(lx), F.lex_comments(lx)) != (tok_texts(r_lex[i]), F.lex_comments(r_lex[i])):
+            hook_same = (tok_texts(r_lex_out[i]), F.lex_comments(r_lex_out[i])) == (tok_texts(r_lex[i]), F.lex_comments(r_lex[i]))
+            if hook_same:   # otherwise the per-phase classification above has already reported it
+                ctx.fail("C17/cli-drops-source-text", "`garden format FILE` prints a text with other tokens/comments than "
+                         "the file, although format() on the same text keeps them (main.rs pre-processing)",
+                         origin=good[i][0], input=good[i][1], output=so, command="garden format f.gdn")
+    for i, rc, so in res:
+        if rc != 0:
+            ctx.fail("C17/cli-format-failed", "`garden format FILE` exits %d on a parseable file" % rc,
+                     origin=good[i][0], input=good[i][1])
+    ctx.cov["cli_format_runs"] = n_cli
+    ctx.cov["cli_inputs_with_args_comment"] = len(argsy)
 
     ctx.cov["programs"] = len(good)
     ctx.cov["disagreements_checked"] = len(good)
